@@ -1,20 +1,23 @@
 """C01: ordinary cell hash/depth = TON representation hash/depth, through every construction route."""
 from ..gen import cells as G
+from ..translate import arith
 
 SPEC = dict(
     manifest=dict(
         category='proof',
-        text='Lean proves for EVERY tree of ordinary cells (all bit lengths, ref counts, shapes; SHA-256 abstract) that the model of Cell.__init__ is constructible iff depth<=1023 and reports the textbook representation hash/depth at every level, that get_representation hashes to the cached hash, that ==/__hash__ coincide with hash equality, and that the standard representation is injective (c01_repr_injective: d1 d2 ++ padded data ++ child depths ++ child hashes determines the BIT STRING -- the completion-tag padding is invertible given d2, Proofs/Pad.lean -- the reference count and every child depth field and hash; c01_hash_binding: equal hashes without a collision on the two representations mean equal bits and child hashes). The model is tied to the code by differential correspondence through 12 construction routes.',
+        text='Lean proves for EVERY tree of ordinary cells (all bit lengths, ref counts, shapes; SHA-256 abstract) that the model of Cell.__init__ is constructible iff depth<=1023 and reports the textbook representation hash/depth at every level, that get_representation hashes to the cached hash, that ==/__hash__ coincide with hash equality, and that the standard representation is injective (c01_repr_injective: d1 d2 ++ padded data ++ child depths ++ child hashes determines the BIT STRING -- the completion-tag padding is invertible given d2, Proofs/Pad.lean -- the reference count and every child depth field and hash; c01_hash_binding: equal hashes without a collision on the two representations mean equal bits and child hashes). The model is tied to the code by differential correspondence through 12 construction routes. The integer arithmetic the model rests on (descriptors, level-mask functions, depth limit, pruned offsets) is additionally REGENERATED from the Python source on every run and proved equal to the model/spec for all inputs (c0x_src_* theorems).',
         level_note='Trusted: Lean kernel (propext, Classical.choice, Quot.sound), Model/Cell.lean as a faithful hand transcription of cell.py/exotic.py (checked only by sampled correspondence: ~29k node observations per quick run incl. every bit-length class and depth 1022-1025 chains), bitarray/hashlib semantics, the Python harness.',
-        technique='Lean 4 refinement proof (hand model) + differential correspondence with the library',
+        technique='Lean 4 refinement proof (hand model) + differential correspondence with the library + source-regenerated arithmetic lemmas',
     ),
+    translators=[('cell.py d1/d2/depth-limit->Generated/CellArith.lean', arith.regenerator('CellArith'))],
     design_ref='DESIGN.md §6 C01',
     rule='ordinary-cell DAGs: every bit length class (all 1024 lengths in thorough), 0-4 refs, sharing, chains to depth 1022/1023/1024; '
          'each node observed through routes ctor/plain-bitarray/builder/boc/copy/slice/to_builder; distinct = distinct (dag, node, route); '
          'non-trivial = node has bits or refs',
     trusted_base=['Model/Cell.lean mirrors Cell.__init__/calculate_hashes/get_hash/get_depth/get_representation by hand',
                   'Spec/Cell.lean transcribes tvm.pdf 3.1.4-3.1.5', 'SHA-256 is an abstract parameter H in all theorems',
-                  'lean/TonVerif/Sha256.lean (driver only) validated against hashlib on each run'],
+                  'lean/TonVerif/Sha256.lean (driver only) validated against hashlib on each run',
+                  'harness/translate/pyarith.py + arith.py (Python int arithmetic -> Lean) and lean/TonVerif/PyInt.lean (meaning of bit_length / bin().count / math.ceil) for the c01_src_* theorems'],
     assumptions=['bitarray slicing/tobytes/fill behave as modelled', 'hashlib.sha256 is SHA-256',
                  'correspondence is sampled differential testing of model vs library'],
 )
@@ -110,8 +113,28 @@ def eq_pairs(ctx, nodes):
                          {'eq': a == b, 'hash_eq': a.__hash__() == b.__hash__()}, same)
 
 
+def src_search(ctx):
+    """Search mode only: the points where a regenerated definition (Generated/CellArith.lean) differs from the function it is
+    proved equal to, turned into cells for the oracle.  True = a concrete failing input was found."""
+    found = arith.search_points(ctx, ['CellArith'])
+    n0 = len(ctx.failures)
+    leaf = [(G.ORD, '101', ())]
+    for pt in found.get('bitsDescriptor') or []:
+        if pt['b'] <= 1023:
+            check_dag(ctx, [(G.ORD, G.rand_bits(ctx.rng, pt['b']), ())], f'src-d2-len{pt["b"]}', derive=False)
+    for pt in found.get('refsDescriptor') or []:
+        if pt['r'] <= 4 and not pt['exotic'] and pt['mask'] == 0:
+            check_dag(ctx, leaf + [(G.ORD, '1', tuple([0] * pt['r']))], f'src-d1-refs{pt["r"]}', derive=False, routes=['ctor'])
+    for pt in found.get('depthTooLarge') or []:
+        if 1 <= pt['depth'] <= 1100:
+            check_dag(ctx, G.chain(pt['depth'], '', 1), f'src-chain{pt["depth"]}', derive=False, routes=['ctor'])
+    return len(ctx.failures) > n0
+
+
 def run(ctx):
     rng = ctx.rng
+    if ctx.search and src_search(ctx):
+        return
     # sha256 of the driver vs hashlib
     import hashlib
     if ctx.driver_ok:
